@@ -322,7 +322,7 @@ func callbackAdd(fn *ssa.Function, l *natLoop, get frameGet, callersOf func(*ssa
 	if frame == nil {
 		return frameAdd{}, "", false
 	}
-	for b := range l.Blocks {
+	for _, b := range l.ordered() {
 		for _, ins := range b.Instrs {
 			call, ok := ins.(*ssa.Call)
 			if !ok {
@@ -532,7 +532,7 @@ func (c *Ctx) orderFramesRule(e *Eff) int {
 				pj := paramIndex(fn, a.pd)
 				pk := -1
 				for v := range backwardSlice(a.data, 400) {
-					if k := paramIndex(fn, v); k >= 0 && isByteSlice(fn.Params[k].Type()) {
+					if k := paramIndex(fn, v); k >= 0 && isByteSlice(fn.Params[k].Type()) && (pk < 0 || k < pk) {
 						pk = k
 					}
 				}
@@ -606,12 +606,13 @@ func (c *Ctx) orderFramesRule(e *Eff) int {
 				continue
 			}
 			boundOK, arith := false, false
+			direct := false
 			if pd, ok := frameCountSource(bound, 0); ok && sameBase(pd, get.pd) {
-				boundOK = true
+				boundOK, direct = true, true
 			}
 			for v := range backwardSlice(bound, 200) {
-				if boundOK {
-					break
+				if direct {
+					break // the bound is the FrameCount() result itself (possibly through a helper)
 				}
 				if call, ok := v.(*ssa.Call); ok {
 					if cc := call.Common(); cc.IsInvoke() && cc.Method.Name() == "FrameCount" && sameBase(cc.Value, get.pd) {
